@@ -167,6 +167,42 @@ def prefix_cases(rng, n):
                                       [(1, rng.choice([1, 2]), [1]), (0, rng.choice([1, 2]), [1])]) + routes))
     return out
 
+def prefix_merge_cases(rng, n):
+    """prefix sets built by several add_defined_set calls (merge path) and partial deletes, with 0.0.0.0/0 and ::/0
+    entries given, restated or omitted in each call; evaluated on routes of both families"""
+    out = []
+    Z4 = lambda: [[ip4(0, 0, 0, 0), 0], *rng.choice([(0, 32), (8, 24), (16, 16), (24, 32), (0, 0)])]
+    Z6 = lambda: [[ip6(0), 0], *rng.choice([(0, 128), (16, 48), (20, 20), (32, 64), (0, 0)])]
+    def piece():
+        e = []
+        if rng.random() < 0.5: e.append(Z4())
+        if rng.random() < 0.4: e.append(Z6())
+        for _ in range(rng.choice([0, 1, 1, 2])):
+            if rng.random() < 0.7:
+                (a, m) = rng.choice(P4[:7]); lo, hi = rng_range(rng, m, 32)
+            else:
+                (a, m) = rng.choice(P6[:3]); lo, hi = rng_range(rng, m, 128)
+            e.append([[a, m], lo, hi])
+        rng.shuffle(e)
+        return e
+    routes4 = R4 + [n4(172, 16, 0, 0, 16), n4(8, 0, 0, 0, 8), n4(10, 1, 2, 0, 20)]
+    routes6 = R6 + [n6(0, 20), n6(0, 16), n6(1 << 100, 24), [6, 0x20010db8 << 32, 0, 20], [6, 0x3ffe << 48, 0, 16], [6, 0x3ffe << 48, 0, 48]]
+    for _ in range(n):
+        first = piece() or [Z4()]
+        if rng.random() < 0.6 and not any(e[0][0] == ip4(0, 0, 0, 0) and e[0][1] == 0 for e in first): first.append(Z4())
+        ops = [[1, 0, [0, 1, first]]]
+        for _ in range(rng.choice([1, 1, 2, 3])):
+            x = rng.random()
+            if x < 0.7: ops.append([1, 0, [0, 1, piece()]])                       # merge
+            elif x < 0.85: ops.append([2, 0, [0, 1, rng.sample(first, min(len(first), rng.randint(1, 2)))]])   # partial delete
+            else: ops.append([1, 1, [0, 1, piece()]])                             # replace
+            if rng.random() < 0.3: ops.append([10])
+        opt = rng.choice([0, 0, 2])
+        ops += [[3, 1, [[0, 1, opt]], [2], NOACT()], [5, 1, [1]], [7, 0, 1, 1, [1]], [7, 0, 0, 1, [1]]]
+        ops += [ev(r, [], d=rng.randrange(2)) for r in rng.sample(routes4, 5) + rng.sample(routes6, 6)]
+        out.append(mk('prefix_merge', ops))
+    return out
+
 def aspath_cases(rng, n, regex_p=0.0, cls='aspath'):
     out = []
     for _ in range(n):
@@ -479,6 +515,7 @@ def gen_cases(rng, tier):
     q = tier == 'quick'
     cases = []
     cases += prefix_cases(rng, 150 if q else 1500)
+    cases += prefix_merge_cases(rng, 120 if q else 1200)
     cases += aspath_cases(rng, 150 if q else 1500)
     cases += aspath_cases(rng, 80 if q else 800, regex_p=1.0, cls='aspath_regex')
     cases += community_cases(rng, 120 if q else 1200)
